@@ -357,6 +357,11 @@ def fn_source(case):
         lines, fr = render_stmt(s, 8 if guarded else 4)
         body.extend(lines)
         frags.append(fr)
+    if case.get("nested"):
+        # the same definition inside a function scope: __qualname__ ("_outer.<locals>.f") differs from __name__
+        k = max(i for i, l in enumerate(head) if l == "") + 1
+        inner = ["    " + l if l else l for l in head[k:] + body]
+        return "\n".join(head[:k] + ["def _outer():"] + inner + ["    return f", "", "", "f = _outer()"]) + "\n", frags
     return "\n".join(head + body) + "\n", frags
 
 
@@ -1159,6 +1164,8 @@ def gen_fn(rng, ctx=None):
         ret = rng.choice([["none"], ["u", ["int"], "plain"], ["u", ["int", "NoneType"], "pipe"]])
     case = {"kind": "fn", "params": params, "body": body, "ret": ret, "declared": declared, "validate": validate,
             "via": rng.choice(["call", "call", "at", "function_node"]), "postponed": rng.random() < 0.1, "ops": []}
+    if rng.random() < 0.25:
+        case["nested"] = True       # defined inside a function scope (closure-style): __qualname__ != __name__
     case["ops"] = gen_ops(rng, [p["name"] for p in params], {p["name"]: atoms_of(p.get("ann")) for p in params},
                           [p["name"] for p in params if p["default"] is None])
     return case
